@@ -23,6 +23,8 @@ import (
 
 type pd struct {
 	sig string
+	// rseed seeds the reflective mutation program (program 5)
+	rseed int64
 }
 
 func (p pd) gen(tp *simkit.Tape, ids *gen.IDs) any {
@@ -142,11 +144,14 @@ func overwriteValue(v pcommon.Value, w string, n int64) {
 			b.Append(byte(n) + 1)
 		}
 	case pcommon.ValueTypeMap:
+		// overwrite what is there, then insert INTO the nested container (the container object itself is kept)
 		overwriteMap(v.Map(), w, n)
+		v.Map().PutStr("mut.inserted", w)
 	case pcommon.ValueTypeSlice:
 		for i := 0; i < v.Slice().Len(); i++ {
 			overwriteValue(v.Slice().At(i), w, n)
 		}
+		v.Slice().AppendEmpty().SetStr(w)
 	}
 }
 
@@ -296,6 +301,16 @@ func (p pd) mutateInPlace(x any, w string, n int64) {
 
 // mutate applies mutation program `kind` leaving the witness string somewhere in the payload.
 func (p pd) mutate(x any, witness string, kind int) {
+	if kind == 5 {
+		var n int64
+		_, _ = fmt.Sscanf(witness, "WITNESS-%d", &n)
+		for _, rc := range reflectProgram(x, p.rseed+n, witness, 6, nil) {
+			if rc.panicked {
+				panic("invalid access to shared data (reflective program: " + rc.desc + ")")
+			}
+		}
+		return
+	}
 	if kind == 4 {
 		var n int64
 		_, _ = fmt.Sscanf(witness, "WITNESS-%d", &n)
@@ -455,13 +470,13 @@ func runC06(r *simkit.Run) {
 		return
 	}
 	tp := r.Tape
-	p := pd{sig: drawSignal(tp)}
+	p := pd{sig: drawSignal(tp), rseed: int64(tp.Draw(1 << 30))}
 	n := tp.Range(1, 5)
 	cs := make([]*c06Consumer, n)
 	var desc []string
 	nRO := 0
 	for i := range cs {
-		c := &c06Consumer{n: i, mutates: tp.Chance(1, 2), fail: tp.Chance(1, 5), mutKind: tp.Draw(5)}
+		c := &c06Consumer{n: i, mutates: tp.Chance(1, 2), fail: tp.Chance(1, 5), mutKind: tp.Draw(6)}
 		if c.mutates {
 			c.async = tp.Chance(1, 2)
 		} else {
@@ -528,6 +543,18 @@ func runC06(r *simkit.Run) {
 			declared()
 		case c.mutates && c.async:
 			later = append(later, declared)
+		case c.undeclared && c.mutKind == 5:
+			// the reflective sweep on shared read-only data: every mutator call is either stopped by the read-only
+			// assertion or changes nothing
+			before := p.bytes(x)
+			reflectProgram(x, p.rseed+int64(c.n), w, 8, func(rc reflCall) {
+				if now := p.bytes(x); !bytes.Equal(now, before) {
+					r.Failf("readonly", "mutator-does-not-assert/"+rc.desc, "consumer %d is one of %d non-mutating consumers sharing the payload (input read-only: %v): %s returned normally on read-only data and changed it (%d -> %d bytes)", c.n, nRO, inputRO, rc.desc, len(before), len(now))
+					before = now
+				}
+			})
+			c.panicked = true // judged call by call above
+			r.Count("probe.reflective_sweep_on_read_only_data")
 		case c.undeclared:
 			func() {
 				defer func() {
@@ -669,5 +696,5 @@ var HarnessC06 = simkit.Harness{
 	Prop: "C06", Name: "svc/c06", Run: runC06, StepTimeout: 20e9, HashInsensitive: true,
 	Real: append([]string{"internal/fanoutconsumer (logs, traces, metrics, profiles)", "pdata read-only state and deep copy", "service/internal/capabilityconsumer and the graph's capabilities / fan-out nodes (graph mode)"}, svcReal...),
 	Stub: append([]string{"consumers with a declared capability, an injected failure and a mutation program run during the call, as a later task, or undeclared"}, svcStub...),
-	Rule: "one run = direct mode: a fan-out over 1-5 simulated consumers with a tape-drawn capability vector, read-only or mutable generated input, per-consumer failure and mutation program (5 kinds, one of which overwrites every reachable value in place keeping its type; synchronous, as a later task in tape order, or undeclared by a non-mutating consumer); or graph mode: a generated service topology (as C09) whose mutating processors and mutating exporters really mutate, with delivery trails and each pipeline's advertised capability compared with the configuration; distinct = distinct event-log hash; non-trivial = more than one consumer or an asynchronous mutation / a payload with >1 delivery.",
+	Rule: "one run = direct mode: a fan-out over 1-5 simulated consumers with a tape-drawn capability vector, read-only or mutable generated input, per-consumer failure and mutation program (6 kinds: one overwrites every reachable value in place keeping its type, one is a seeded walk over the public pdata API found by reflection calling Set*/Put*/Remove*/Append*/From*/Clear*/Ensure*/Sort* with generated arguments; synchronous, as a later task in tape order, or undeclared by a non-mutating consumer); or graph mode: a generated service topology (as C09) whose mutating processors and mutating exporters really mutate, with delivery trails and each pipeline's advertised capability compared with the configuration; distinct = distinct event-log hash; non-trivial = more than one consumer or an asynchronous mutation / a payload with >1 delivery.",
 }
